@@ -398,12 +398,11 @@ def param_formatter(res, model, rule="R-SHAPE"):
         if not (len(c.args) == 1 and isinstance(c.args[0], _ast.Name) and not c.keywords):
             problems.append(f"object_to_decimal is applied to `{_ast.unparse(c.args[0]) if c.args else ''}`, not to the plain argument")
         par = getattr(c, "_parent", None)
-        if not isinstance(par, (_ast.Tuple, _ast.Assign, _ast.AugAssign, _ast.List, _ast.GeneratorExp, _ast.ListComp)):
+        if not isinstance(par, (_ast.Tuple, _ast.Assign, _ast.AugAssign, _ast.List, _ast.GeneratorExp, _ast.ListComp, _ast.DictComp, _ast.Starred)):
             problems.append(f"the converted value is transformed again: `{_ast.unparse(par)[:50]}`")
     if other:
         problems.append(f"other calls in the wrapper: {[_ast.unparse(c)[:30] for c in other][:3]}")
-    loops = [n for n in _ast.walk(w) if isinstance(n, _ast.For)]
-    its = {_ast.unparse(l.iter) for l in loops}
+    its = {_ast.unparse(l.iter) for l in _ast.walk(w) if isinstance(l, (_ast.For, _ast.comprehension))}
     if not ({va} & its) or not ({f"{kw}.items()", kw, f"{kw}.keys()"} & its):
         problems.append("the conversion does not loop over all positional and all keyword arguments")
     if any(isinstance(n, (_ast.If, _ast.IfExp, _ast.Break, _ast.Continue)) for n in _ast.walk(w)):
